@@ -152,6 +152,7 @@ pub struct ViolationRec {
 }
 
 struct WorkerResult {
+    sig_counts: BTreeMap<String, u64>,
     stats: Stats,
     violations: Vec<ViolationRec>,
     harness: Vec<String>,
@@ -172,7 +173,13 @@ fn drive_worker(
     nviol: Arc<AtomicUsize>,
 ) -> WorkerResult {
     let exe = std::env::current_exe().expect("current exe");
+    let known_sigs: Vec<String> = load_findings()
+        .into_iter()
+        .filter(|f| f.status == "known")
+        .map(|f| f.signature)
+        .collect();
     let mut res = WorkerResult {
+        sig_counts: BTreeMap::new(),
         stats: Stats::default(),
         violations: vec![],
         harness: vec![],
@@ -233,8 +240,24 @@ fn drive_worker(
             } else if let Some(r) = line.strip_prefix("V ") {
                 match serde_json::from_str::<ViolationRec>(r) {
                     Ok(v) => {
-                        res.violations.push(v);
-                        if nviol.fetch_add(1, Ordering::Relaxed) + 1 >= 24 {
+                        let sig = v
+                            .outcome
+                            .violation
+                            .as_ref()
+                            .map(signature)
+                            .unwrap_or_default();
+                        let n_same = res
+                            .violations
+                            .iter()
+                            .filter(|x| x.outcome.violation.as_ref().map(signature).as_deref() == Some(sig.as_str()))
+                            .count();
+                        *res.sig_counts.entry(sig.clone()).or_insert(0) += 1;
+                        let known = known_sigs.contains(&sig);
+                        if n_same < 3 {
+                            res.violations.push(v);
+                        }
+                        // known findings never end a batch early
+                        if !known && nviol.fetch_add(1, Ordering::Relaxed) + 1 >= 24 {
                             stop.store(true, Ordering::Relaxed);
                         }
                     }
@@ -295,6 +318,7 @@ fn drive_worker(
 }
 
 pub struct BatchResult {
+    pub sig_counts: BTreeMap<String, u64>,
     pub stats: Stats,
     pub violations: Vec<ViolationRec>,
     pub harness: Vec<String>,
@@ -338,6 +362,7 @@ pub fn run_batch(prop: &str, tier: Tier, seed: u64, n: u64, w: usize, deadline_s
         }));
     }
     let mut out = BatchResult {
+        sig_counts: BTreeMap::new(),
         stats: Stats::default(),
         violations: vec![],
         harness: vec![],
@@ -347,6 +372,9 @@ pub fn run_batch(prop: &str, tier: Tier, seed: u64, n: u64, w: usize, deadline_s
     for h in hs {
         if let Ok(r) = h.join() {
             out.stats.merge(r.stats);
+            for (k, v) in r.sig_counts {
+                *out.sig_counts.entry(k).or_insert(0) += v;
+            }
             out.violations.extend(r.violations);
             out.harness.extend(r.harness);
             out.aborts.extend(r.aborts);
@@ -442,11 +470,13 @@ pub fn check(prop: &str, tier_s: &str) -> i32 {
             .iter()
             .find(|f| f.status == "known" && f.property == prop && &f.signature == sig)
         {
-            println!("KNOWN-FINDING: property={} {} [{} occurrence(s), id {}]", prop, f.what, vs.len(), f.id);
-            n_known += vs.len() as u64;
+            let n = b.sig_counts.get(sig).copied().unwrap_or(vs.len() as u64);
+            println!("KNOWN-FINDING: property={} {} [{} occurrence(s), id {}]", prop, f.what, n, f.id);
+            n_known += n;
             continue;
         }
-        n_viol += vs.len() as u64;
+        let n_occ = b.sig_counts.get(sig).copied().unwrap_or(vs.len() as u64);
+        n_viol += n_occ;
         let first = &vs[0];
         let _ = std::fs::create_dir_all(&replay_dir);
         let rep = minimise::minimise_and_confirm(first, Duration::from_secs(90));
@@ -456,7 +486,7 @@ pub fn check(prop: &str, tier_s: &str) -> i32 {
             "VIOLATION property={prop} replay={} class={} occurrences={} :: {}",
             path.display(),
             rep.violation.class,
-            vs.len(),
+            n_occ,
             rep.violation.message.replace('\n', " ")
         );
         exit = if exit == 2 { 2 } else { 1 };
